@@ -145,7 +145,7 @@ def toc_lookup_rules(ctx, rule='R8'):
             n_ok += 1
         elif exc and (rv is None or norm(rv) == 'None'):
             continue            # malformed name (ValueError) -> None
-        elif (rv is None or norm(rv) == 'None') and all(('is None' in c or 'is not None' in c) for c in p_.cond_texts()):
+        elif (rv is None or norm(rv) == 'None') and all(' is None' in k[0] or 'None is ' in k[0] for k in p_.fact_keys(orig=False)):
             continue            # explicit not-found test on None
         else:
             bad.append((p_.cond_texts(), norm(rv) if rv is not None else None))
@@ -248,7 +248,7 @@ def check(ctx):
     for fn in (start, rq):
         ps, _ = paths_of(fn)
         for p in ps:
-            v2 = 'self._useV2' in p.cond_texts(orig=True)
+            v2 = fact_key('self._useV2', True) in p.fact_keys()
             for e in p.calls(lambda c: method_call(c, 'send_packet')):
                 kw = {k.arg: k.value for k in e.node.keywords}
                 stores = {norm(x.node.targets[0]): x.node.value for x in p.events if x.kind == 'store'}
@@ -397,9 +397,9 @@ def check(ctx):
     adopt = [n for n in g.nodes if n.kind == 'stmt' and isinstance(n.ast, ast.Assign) and norm(n.ast.targets[0]) == 'self.toc.toc']
     ctx.need(len(adopt) == 1, '_new_packet_cb: adoption of the cached table not found')
     hit_edges = [e for e in g.dominating_edges(adopt[0]) if e.label and e.label[0] == 'cond' and norm(adopt[0].ast.value) in norm(e.label[1])]
-    ctx.need(len(hit_edges) == 1 and hit_edges[0].label[2] is True, '_new_packet_cb: cache-hit test not recognised')
+    ctx.need(len(hit_edges) == 1, '_new_packet_cb: cache-hit test not recognised')
     hit_edge = hit_edges[0]
-    miss_edge = [e for e in hit_edge.src.succ if e.label and e.label[0] == 'cond' and e.label[2] is False][0]
+    miss_edge = [e for e in hit_edge.src.succ if e.label and e.label[0] == 'cond' and e is not hit_edge][0]
 
     def on(edge, n):
         return ('e', edge.id) in (g.dom().get(('n', n.id)) or ())
